@@ -336,8 +336,11 @@ def finish(res, tier, seed, level, t0, technique=''):
         ],
         'wall_s': round(wall, 3), 'violations': int(unlisted),
     }
-    os.makedirs(os.path.join(ROOT, 'evidence'), exist_ok=True)
-    with open(os.path.join(ROOT, 'evidence', prop + '.json'), 'w') as f:
+    out_path = os.environ.get('VERIF_EVIDENCE_OUT')
+    if not out_path:
+        os.makedirs(os.path.join(ROOT, 'evidence'), exist_ok=True)
+        out_path = os.path.join(ROOT, 'evidence', prop + '.json')
+    with open(out_path, 'w') as f:
         json.dump(ev, f, indent=1, default=str)
     print('%s tier=%s evaluations=%d nontrivial=%d cells=%d skipped=%d unlisted_violations=%d wall=%.1fs' % (
         prop, tier, res.evals, res.nontrivial, cov['cells_populated'], sum(res.skipped.values()), unlisted, wall))
